@@ -799,6 +799,22 @@ def impl_parse(gl: GLang, s: str, decl):
     return (0, None, e, inputs, dt)
 
 
+def flags_oracle(gl: GLang, s: str, decl, evs, resv, flags):
+    """Language.parse(s, *inputs, fix=.., unify=..) against the programmatic construction
+    Application(f, x, fix, unify) of the same tree: the keyword arguments reach every
+    application alike, whatever notation it was written in.  -> None | (parsed, built)"""
+    inputs = mk_inputs(gl, decl)
+    try:
+        e = gl.lang.parse(s, *inputs, fix=flags[0], unify=flags[1])
+        got = (0, canon_expr(gl, e, inputs))
+    except Exception as ex:   # noqa: BLE001
+        code = declared_family(gl, ex)
+        got = (code if code is not None else 99, None)
+    pcode, proot, pin, pname = replay_events(gl, evs, decl, resv, flags)
+    want = (pcode, canon_expr(gl, proot, pin) if pcode == 0 else None)
+    return None if got == want else (got, want)
+
+
 def fixed_canon(gl, e, inputs):
     try:
         e.fix()
@@ -822,7 +838,7 @@ def dec_val(enc, pos=0):
     return ("app", enc[pos + 1], f, x), p
 
 
-def replay_events(gl: GLang, events, decl, result=None):
+def replay_events(gl: GLang, events, decl, result=None, flags=(True, True)):
     """Execute construction events (model encoding) with transforge objects.
     -> (code, root object or None, inputs).  The calls are the ones parse_expr
     makes with fix=True, unify=True."""
@@ -842,16 +858,17 @@ def replay_events(gl: GLang, events, decl, result=None):
             elif kind == 1:
                 objs[v[1]] = E.Source()
             elif kind == 2:
-                objs[v[1]] = E.Application(ref(v[2]), ref(v[3]), True, True)
+                objs[v[1]] = E.Application(ref(v[2]), ref(v[3]), flags[0], flags[1])
             else:
                 o = ref(v)
                 t, _ = gl.mk_pty(ev, pos)
                 if kind == 3:
                     o.type = t
-                try:
-                    o.type.unify(t, subtype=True)
-                except T.TypingError as ex:
-                    raise L.TypeAnnotationError(o, t, None) from ex
+                if flags[1] or isinstance(o, E.Source):     # lang.py: an annotation is checked when
+                    try:                                   # unify is on, or on a source
+                        o.type.unify(t, subtype=True)
+                    except T.TypingError as ex:
+                        raise L.TypeAnnotationError(o, t, None) from ex
     except Exception as ex:   # noqa: BLE001
         code = declared_family(gl, ex)
         return (code if code is not None else 99), None, inputs, type(ex).__name__
@@ -1727,6 +1744,16 @@ def main(tier: str, seed: int, replay: str | None = None) -> int:
                              "(structure, or the type of a node after fix(), or the error)",
                         parsed=str(obs), programmatic=str((pcode, pcanon) if pcode == 0 else pname)),
                         has_input=True, signature=sig)
+                # oracle 1b: the same under the parser's fix / unify switches (a third of the strings)
+                if r["impl"] == 0 and obs == want and (n_eval % 3) == 0:
+                    fl = [(True, False), (False, True), (False, False)][(n_eval // 3) % 3]
+                    bad = flags_oracle(gl, s, decl, evs, resv, fl)
+                    feats["parsed_with_switches"] = feats.get("parsed_with_switches", 0) + 1
+                    if bad:
+                        violation(f"switches_{li}_{ti}_{ri}", dict(payload, kind="oracle", fix=fl[0], unify=fl[1],
+                            what="with fix/unify given to Language.parse the parsed expression differs from "
+                                 "Application(f, x, fix, unify) built by hand (node types before any fix())",
+                            parsed=str(bad[0]), programmatic=str(bad[1])), has_input=True)
                 # oracle 2: all renderings agree with the first one
                 if first is None:
                     first = (obs, s)
